@@ -383,7 +383,7 @@ impl Prop for C11 {
     type Case = Case;
     fn admissible(case: &Case) -> bool {
         match case {
-            Case::RoundTrip { templates, states, .. } => *states <= 70_000 && templates.states.len() <= 2000 && templates.build().is_ok(),
+            Case::RoundTrip { templates, states, .. } => *states <= 70_000 && templates.states.len() <= 9000 && templates.build().is_ok(),
             Case::Text { s } | Case::V1Text { s } => s.len() <= 100_000,
             Case::Mutated { base, muts, .. } => base.states.len() <= 64 && base.build().is_ok() && muts.len() <= 32,
             Case::Mirror { base, mutations } => base.states.len() <= 64 && mutations.len() <= 16,
@@ -401,6 +401,7 @@ impl Prop for C11 {
                 prof("roundtrip", 6_000),
                 prof("large", 160),
                 prof("large_random", 64),
+                prof("huge_random", 16),
                 prof("text", 8_000),
                 prof("mutated", 30_000),
                 prof("mirror", 10_000),
@@ -411,6 +412,7 @@ impl Prop for C11 {
                 prof("roundtrip", 200_000),
                 prof("large", 4_000),
                 prof("large_random", 1_500),
+                prof("huge_random", 200),
                 prof("text", 200_000),
                 prof("mutated", 1_500_000),
                 prof("mirror", 400_000),
@@ -441,6 +443,43 @@ impl Prop for C11 {
                 let mp = MachineParams { min_states: 200, max_states: 1500, dist: DistProfile::Wild, p_trans: [0.25; 13], ..MachineParams::default() };
                 (machine(&mp), any::<u64>())
                     .prop_map(|(templates, seed)| Case::RoundTrip { states: templates.states.len() as u32, templates, fit: 0, seed })
+                    .boxed()
+            }
+            "huge_random" => {
+                // close to the 1 MiB limit AND incompressible (random mantissas everywhere): the
+                // serialized string is longer than 1 MiB of text although the encoding fits the limit
+                (any::<u64>(), 3000u32..6500)
+                    .prop_map(|(seed, n)| {
+                        let mut x = seed | 1;
+                        let mut r = move || {
+                            x ^= x << 13;
+                            x ^= x >> 7;
+                            x ^= x << 17;
+                            // a finite positive f64 with a random mantissa, magnitude up to ~1e6
+                            (x >> 11) as f64 / (1u64 << 33) as f64
+                        };
+                        let mut d = || {
+                            let low = r();
+                            let high = low + r();
+                            DistSpec { kind: DistKind::Uniform { low: Fx(low), high: Fx(high) }, start: Fx(r()), max: Fx(r() + 2e6) }
+                        };
+                        let states = (0..n)
+                            .map(|i| StateSpec {
+                                action: Some(ActionSpec::Block { bypass: i % 2 == 0, replace: i % 3 == 0, timeout: d(), duration: d(), limit: Some(d()) }),
+                                counter_a: Some(CounterSpec { op: (i % 3) as u8, dist: Some(d()), copy: false }),
+                                counter_b: None,
+                                trans: vec![(3, vec![(((i + 1) % n) as usize, Fs(1.0))])],
+                            })
+                            .collect();
+                        let templates = MachineSpec {
+                            allowed_padding_packets: seed,
+                            max_padding_frac: Fx(0.5),
+                            allowed_blocked_microsec: seed >> 3,
+                            max_blocking_frac: Fx(0.25),
+                            states,
+                        };
+                        Case::RoundTrip { states: n, templates, fit: 0, seed }
+                    })
                     .boxed()
             }
             "text" => prop_oneof![
@@ -544,6 +583,9 @@ impl Prop for C11 {
                 let s = m.serialize();
                 if s.len() > 64 * 1024 {
                     obs.hit("compressed_form_above_64KiB");
+                }
+                if s.len() > (1 << 20) {
+                    obs.hit("string_longer_than_1MiB");
                 }
                 let parsed = match judge_v2(&s, obs, "round trip")? {
                     Some(p) => p,
@@ -740,6 +782,7 @@ impl Prop for C11 {
         vec![
             "round_trip_ok",
             "compressed_form_above_64KiB",
+            "string_longer_than_1MiB",
             "thousands_of_states",
             "just_under_the_size_limit",
             "exactly_at_the_size_limit",
